@@ -63,6 +63,8 @@ void writer_thread(void *arg) {
   for (int oi : L.per_thread[tid]) {
     if (failed()) break;
     const Op &o = L.p->ops[oi];
+    if (o.kind == O_FLUSH) { ldb_test_compact_memtable(L.db); continue; }             // flushes and compactions issued by the
+    if (o.kind == O_COMPACT_RANGE) { ldb_test_compact_range(L.db, o.a < 0 ? 0 : o.a > 4 ? 4 : o.a, NULL, NULL); continue; } // writers race with the backups of thread 0
     if (o.kind != O_WRITE) continue;
     for (auto &w : L.wbs) if (w.opidx == oi) { w.inv = sim::step(); w.rc = db_write(L.db, w.ups, o.sync); w.ret = sim::step(); w.done = true; if (w.rc) violation("C20", "write_failed", "write failed: %s", rcname(w.rc)); }
   }
@@ -352,7 +354,7 @@ Plan gen_life(uint64_t seed, const string &prop) {
   p.cfg = random_config(r);
   p.cfg.wbs = 65536;
   p.params["prop"] = prop;
-  bool conc = r.chance(0.35);
+  bool conc = r.chance(0.45);
   p.seti("concurrent", conc);
   p.seti("default_log", r.chance(0.3));
   uint64_t tag = 1;
@@ -372,8 +374,8 @@ Plan gen_life(uint64_t seed, const string &prop) {
         for (int q = 0; q < n; q++) { Upd u; char kb[48]; snprintf(kb, sizeof kb, "w%d/k%02d", o.tid, (int)r.below(6)); u.key = kb; u.del = r.chance(0.2); if (!u.del) { u.tag = tag++; u.len = r.chance(0.8) ? (uint32_t)r.range(50, 2500) : (uint32_t)r.range(5000, 30000); u.fill = (int)r.below(2); } o.ups.push_back(u); }
         o.sync = r.chance(0.1);
       } else if (c < 88) { o.kind = O_BACKUP; o.tid = 0; }
-      else if (c < 93) { o.kind = O_FLUSH; o.tid = 0; }
-      else if (c < 97) { o.kind = O_COMPACT_RANGE; o.tid = 0; o.a = (int)r.below(2); }
+      else if (c < 93) { o.kind = O_FLUSH; o.tid = r.chance(0.7) ? (int)r.range(1, nthreads - 1) : 0; }
+      else if (c < 97) { o.kind = O_COMPACT_RANGE; o.tid = r.chance(0.7) ? (int)r.range(1, nthreads - 1) : 0; o.a = (int)r.below(2); }
       else { o.kind = O_GET; o.tid = 0; o.key = "w1/k01"; }
       p.ops.push_back(o);
     }
